@@ -128,8 +128,8 @@ var specialExternals = map[string]extHandler{}
 
 func init() {
 	specialExternals["regexp.MatchString"] = func(x *Exec, call *ast.CallExpr, fn *types.Func, recv *Term, args []Term, st *State) []Term {
-		m := x.ctx.App(pureName(fn)+"#0", SBool, args...)
-		e := x.ctx.App(pureName(fn)+"#1", SInt, args[0])
+		m := x.ctx.App(pureName(fn)+"_r0", SBool, args...)
+		e := x.ctx.App(pureName(fn)+"_r1", SInt, args[0])
 		// a pattern that does not compile matches nothing
 		st.assume(implies(not(eq(e, intLit(0))), not(m)))
 		return []Term{m, e}
@@ -173,7 +173,7 @@ func (x *Exec) applyExternal(call *ast.CallExpr, fn *types.Func, eff effect, rec
 			rt := sig.Results().At(i).Type()
 			sym := pureName(fn)
 			if nres > 1 {
-				sym += fmt.Sprintf("#%d", i)
+				sym += fmt.Sprintf("_r%d", i)
 			}
 			v := x.ctx.App(sym, x.sortOf(rt), all...)
 			v = x.name(st, "ext", v)
